@@ -8,3 +8,31 @@ package cfedistributor
 //@ // ---- declared effects (checked per call instruction by the effect checker; anything not listed is effect-free) ----
 //@ effects AppModule.BeginBlock bank.burn bank.send
 //@ effects BeginBlocker bank.burn bank.send
+
+//@ // ---- the distributor's block step (C03, C14, C18, C01, C10) ----
+//@ // what Params.Validate established for every configured sub-distributor, as far as the block step relies on it
+//@ pred subDistributorsUsable(sds) = forall i: int :: {sds[i].Name} 0 <= i && i < len(sds) ==>
+//@     destinationsValid(sds[i].Destinations) && destinationAccountsOK(sds[i].Destinations) && sourcesOK(sds[i].Sources)
+//@ func BeginBlocker(ctx, k)
+//@   requires subDistributorsUsable($distParams.SubDistributors)
+//@   requires forall d: str :: {$bal[MAIN()][d]} $bal[MAIN()][d] >= 0
+//@   modifies $bal, $supply, $accTag, $accSeq, $accPub, $stLogN, $stLogRem, $evCount, $evTag, $evRef
+//@   ensures existingAccountsUntouched()
+//@   // C03: the remains written back by this block never exceed what the main account holds
+//@   ensures [books] forall d: str :: {$bal[MAIN()][d]} $bal[MAIN()][d] * P - sumLog($stLogRem, old($stLogN), d, $stLogN - old($stLogN)) >= 0
+//@   // C01: the distributor never raises the supply
+//@   ensures forall d: str :: {$supply[d]} $supply[d] <= old($supply[d])
+//@   prop C03 C14 C18 C01 C10
+//@ loop BeginBlocker#1
+//@   invariant 0 <= \i && \i <= len(subDistributors)
+//@   invariant off(states) == 0 && statesHaveAccounts(states) && remainsNonNeg(states) && payoutOK(states)
+//@   invariant forall d: str :: {$bal[MAIN()][d]} unbooked(states, d) >= 0 && $bal[MAIN()][d] >= 0
+//@   invariant existingAccountsUntouched() && $supply == old($supply) && $stLogN == old($stLogN) && $stLogRem == old($stLogRem)
+//@ // C18: the events emitted for a sub-distributor are, in order, the Distribution records StartDistributionProcess returned
+//@ // (whose amounts add up, with the burn record, to the inflow: StartDistributionProcess [events])
+//@ loop BeginBlocker#2
+//@   invariant 0 <= \i && \i <= len(distributions) && distAllocated(distributions) && off(distributions) == 0
+//@   invariant forall j: int :: {distributions[j]} 0 <= j && j < \i ==>
+//@       $evTag[$evCount - \i + j] == typeId("*types.Distribution") && allocated(ptr("*types.Distribution", $evRef[$evCount - \i + j]))
+//@       && ptr("*types.Distribution", $evRef[$evCount - \i + j]).Amount == distributions[j].Amount
+//@       && ptr("*types.Distribution", $evRef[$evCount - \i + j]).Subdistributor == distributions[j].Subdistributor
